@@ -364,7 +364,7 @@ class Verdict:
 
 
 NEGATIVES_FOR = {"C01": ["ResourceImpl_orig"], "C08": ["MC_Pool_orig.cfg"], "C09": ["physdestroy"], "C11": ["MC_ConcRouter_"],
-                 "C15": ["origrace", "expiryrace", "oneshot_code_ListWriteExclusive"], "C20": ["ThreadStart_TRUE"]}
+                 "C15": ["origrace", "expiryrace", "oneshot_code_ListWriteExclusive"], "C20": ["ThreadStart_"]}
 
 
 def write_evidence(pid, tier, seed, level, coverage, assumptions, wall_s, violations, extra=None):
